@@ -3,9 +3,12 @@
 
   Transcription of the per-kind `keyFor` functions of /repo/compiler/prelude/types.js
   (`$ifaceKeyFor` :41-47, `$idKey` :53-59, `$newType` :85-137,147-151,172,193,219,262-267) and of
-  `$floatKey` (/repo/compiler/prelude/numeric.js:25-31).  JS strings are lists of code units (`Str`);
+  `$floatKey` (/repo/compiler/prelude/numeric.js:25-31), AS REPAIRED by /verif/fixes/C15-complex-nan-key,
+  C15-float-array-nan-key and C15-iface-type-id-key.  JS strings are lists of code units (`Str`);
   `$` is 36, `\` is 92.  The global `$idCounter` (prelude.js:71), shared by `$floatKey` (fresh NaN keys)
   and `$idKey` (lazily assigned `$id` of pointers / channels), is explicit state (`KSt`).
+  `Number::toString` on finite non-zero doubles is a PARAMETER `fs` of the model (the theorems state what
+  they need of it: `GV.Props.C15.ToStringOK`); the driver instantiates it with `halfFs`.
   Core Lean only.
 -/
 namespace GV.MapKey
@@ -25,14 +28,15 @@ def decNat (n : Nat) : Str := (digits n).map (· + 48)
 /-- `String(i)` for an integer `i` (sign `-` = 45) -/
 def decInt (i : Int) : Str := if i < 0 then 45 :: decNat i.natAbs else decNat i.natAbs
 
-/-! ### floats: the classes that matter for `==` plus the finite multiples of 1/2 -/
+/-! ### floats: the classes that matter for `==` plus the finite non-zero values -/
 
-/-- a float64/float32 value: NaN, ±Inf, ±0, or the finite non-zero value `twice / 2` -/
+/-- a float64/float32 value: NaN, ±Inf, ±0, or a finite non-zero double identified by an integer code `v ≠ 0`
+    (distinct codes = distinct doubles; the driver uses `v = 2 * value` for multiples of 1/2) -/
 inductive Flt
   | nan
   | inf (neg : Bool)
   | zero (neg : Bool)
-  | fin (twice : Int)
+  | fin (v : Int)
   deriving DecidableEq, Repr, Inhabited
 
 def sNaN : Str := [78, 97, 78]
@@ -45,13 +49,17 @@ def sFalse : Str := [102, 97, 108, 115, 101]
 def halfStr (n : Nat) : Str :=
   if n % 2 = 0 then decNat (n / 2) else decNat (n / 2) ++ [46, 53]
 
-/-- ECMAScript `String(f)` (Number::toString) on the modelled values; `String(-0) = "0"` -/
-def numStr : Flt → Str
+/-- `Number::toString` for the finite non-zero double `t / 2` (exact decimal, which is what ECMAScript prints for
+    these values below 2^53): the instance of the parameter `fs` used by the driver -/
+def halfFs (t : Int) : Str := if t < 0 then 45 :: halfStr t.natAbs else halfStr t.natAbs
+
+/-- ECMAScript `String(f)` (Number::toString); `fs` renders the finite non-zero doubles; `String(-0) = "0"` -/
+def numStr (fs : Int → Str) : Flt → Str
   | .nan => sNaN
   | .inf false => sInfinity
   | .inf true => 45 :: sInfinity
   | .zero _ => [48]
-  | .fin t => if t < 0 then 45 :: halfStr t.natAbs else halfStr t.natAbs
+  | .fin t => fs t
 
 /-! ### values -/
 
@@ -74,7 +82,7 @@ inductive KVal
   | ref (obj : Nat)
   | ifaceNil
   | iface (tid : Nat) (v : KVal)
-  /-- array (`isArr = true`, elements of a JS array / typed array) or struct (fields) -/
+  /-- array (`isArr = true`) or struct (fields; blank `_` fields are not modelled) -/
   | tuple (isArr : Bool) (es : KVals)
 inductive KVals
   | nil
@@ -136,10 +144,10 @@ def joinD : List Str → Str
   | a :: b :: l => a ++ 36 :: joinD (b :: l)
 
 /-- numeric.js:25-31 `$floatKey` -/
-def floatKey (f : Flt) (st : KSt) : Str × KSt :=
+def floatKey (fs : Int → Str) (f : Flt) (st : KSt) : Str × KSt :=
   match f with
   | .nan => (sNaN ++ 36 :: decNat (st.ctr + 1), { st with ctr := st.ctr + 1 })
-  | f => (numStr f, st)
+  | f => (numStr fs f, st)
 
 /-- types.js:53-59 `$idKey` -/
 def idKey (obj : Nat) (st : KSt) : Str × KSt :=
@@ -147,39 +155,35 @@ def idKey (obj : Nat) (st : KSt) : Str × KSt :=
   | some i => (decNat i, st)
   | none => (decNat (st.ctr + 1), ⟨st.ctr + 1, (obj, st.ctr + 1) :: st.ids⟩)
 
-/-- types.js:147-151: `$mapArray(x, f)` allocates `new x.constructor(x.length)`; for `[n]float32/float64`
-    that is a Float32Array/Float64Array (types.js:494-520), so the escaped key *string* of an element is
-    converted back to a number when stored: `"NaN\$7"` becomes `NaN`, and `join` prints `"NaN"`.
-    Integer and non-NaN float element keys survive the round trip unchanged. -/
-def typedArrayCoerce (isArr : Bool) (elem : KVal) (escaped : Str) : Str :=
-  match isArr, elem with
-  | true, .float .nan => sNaN
-  | _, _ => escaped
-
 mutual
-/-- `typ.keyFor(x)` for the type of `x`; `reg tid` is `c.string` of the dynamic type `tid` -/
-def keyFor (reg : Nat → Str) : KVal → KSt → JKey × KSt
-  | .bool b, st => (.bool b, st)                                   -- types.js:87 `$identity`
-  | .int n, st => (.num n, st)                                     -- types.js:87 `$identity`
-  | .i64 hi lo, st => (.str (decInt hi ++ 36 :: decNat lo), st)    -- types.js:109,118
-  | .float f, st => let r := floatKey f st; (.str r.1, r.2)        -- types.js:100
-  | .complex re im, st => (.str (numStr re ++ 36 :: numStr im), st) -- types.js:127,136
-  | .str s, st => (.str (36 :: s), st)                             -- types.js:93
-  | .ref o, st => let r := idKey o st; (.str r.1, r.2)             -- types.js:172,219
-  | .ifaceNil, st => (.str sNil, st)                               -- types.js:42-44
-  | .iface tid v, st =>                                            -- types.js:45-46
-    let r := keyFor reg v st
-    (.str (reg tid ++ 36 :: r.1.toStr), r.2)
-  | .tuple isArr es, st =>                                         -- types.js:147-151, 262-267
-    let r := keysFor reg isArr es st
+/-- `typ.keyFor(x)` for the type of `x`. The dynamic type `tid` of an interface value is identified by its `typ.id`
+    (assigned from `$typeIDCounter` by every `$newType` call, types.js: `typ.id = $typeIDCounter; $typeIDCounter++`),
+    so `tid` IS that id. -/
+def keyFor (fs : Int → Str) : KVal → KSt → JKey × KSt
+  | .bool b, st => (.bool b, st)                                   -- `$identity`
+  | .int n, st => (.num n, st)                                     -- `$identity`
+  | .i64 hi lo, st => (.str (decInt hi ++ 36 :: decNat lo), st)    -- `x.$high + "$" + x.$low`
+  | .float f, st => let r := floatKey fs f st; (.str r.1, r.2)     -- `$floatKey(x)`
+  | .complex re im, st =>                                          -- `$floatKey(x.$real) + "$" + $floatKey(x.$imag)`
+    let r1 := floatKey fs re st
+    let r2 := floatKey fs im r1.2
+    (.str (r1.1 ++ 36 :: r2.1), r2.2)
+  | .str s, st => (.str (36 :: s), st)                             -- `"$" + x`
+  | .ref o, st => let r := idKey o st; (.str r.1, r.2)             -- `$idKey`
+  | .ifaceNil, st => (.str sNil, st)                               -- `$ifaceKeyFor`: `'nil'`
+  | .iface tid v, st =>                                            -- `c.id + '$' + c.keyFor(x.$val)`
+    let r := keyFor fs v st
+    (.str (decNat tid ++ 36 :: r.1.toStr), r.2)
+  | .tuple _ es, st =>                                             -- array: `Array.from(x, e => esc(String(elem.keyFor(e)))).join("$")`
+    let r := keysFor fs es st                                      -- struct: `$mapArray(fields, f => esc(String(f.typ.keyFor(val[f.prop])))).join("$")`
     (.str (joinD r.1), r.2)
 /-- the escaped component keys, left to right -/
-def keysFor (reg : Nat → Str) (isArr : Bool) : KVals → KSt → List Str × KSt
+def keysFor (fs : Int → Str) : KVals → KSt → List Str × KSt
   | .nil, st => ([], st)
   | .cons h t, st =>
-    let r := keyFor reg h st
-    let r2 := keysFor reg isArr t r.2
-    (typedArrayCoerce isArr h (esc r.1.toStr) :: r2.1, r2.2)
+    let r := keyFor fs h st
+    let r2 := keysFor fs t r.2
+    (esc r.1.toStr :: r2.1, r2.2)
 end
 
 /-! ### static types (used to state which pairs of values can meet in one map) -/
